@@ -6,7 +6,7 @@ from . import irv_common as I
 
 class C03(Prop):
     layouts = True
-    translators = ['flow']   # ford_fulkerson / dfs_path (Irving's closed-subset step) regenerated from flow.py on every run
+    translators = ['flow', 'irvsmall']   # ford_fulkerson / dfs_path (Irving's closed-subset step) regenerated from flow.py on every run
     pid = "C03"
     sources = ["socialchoicekit/deterministic_matching.py", "socialchoicekit/flow.py"]
     groups = {"irv": Group("irv", "From SCK Require Import Irving RunIrv.", "RunIrv.irv_case", "RunIrv.chk_irv", shard=12),
